@@ -20,7 +20,7 @@ META = {
                   "of 2 additions in every pair of input forms with an unversioned object present, with and without save/load of the memory "
                   "store; after each history get / all_versions / query (with and without filters) of both stores are compared with the model "
                   "by value. _ObjectFamily latest-tracking is checked over symbolic indices into a version table.",
-    "level_text_more": 'Also: three additions from 5 modified texts lying within one millisecond (one respelled) for a registered and a dict-kept type through both stores and a composite; file-name injectivity decided by pysym for every pair of instants and for every pair of modified texts with 0..6 fraction digits. Latest-version tracking of the memory family and of the composite decided by pysym over symbolic modified texts (string order != instant order); an unversioned object of the same type as versioned ones; bundlified files.',
+    "level_text_more": 'Also: three additions from 5 modified texts lying within one millisecond (one respelled) for a registered and a dict-kept type through both stores and a composite; file-name injectivity decided by pysym for every pair of instants and for every pair of modified texts with 0..6 fraction digits. Latest-version tracking of the memory family and of the composite decided by pysym over symbolic modified texts (string order != instant order); an unversioned object of the same type as versioned ones; bundlified files. Rounds 5-6: the same long-lived stores answer every lookup and 5 queries before the first and after every addition; three starting layouts; loading into a non-empty store; versions named by the caller for content without spec_version; the store read through symbolic links; versions at the two readings of an ambiguous local time.',
     "level_note": "Histories are solver-selected and concretely executed (selector-enumerated). The file system is the in-memory stub (real OS file "
                   "system, encodings, concurrent writers outside the claim). Different spellings of one instant in dictionary-kept objects are "
                   "outside the claim.",
